@@ -94,8 +94,8 @@ class Trace:
         self.ctx = {"lp": 2}
         self.last_ep = None
 
-    def send(self, line):
-        i, m = self.pair.op(line)
+    def send(self, line, model_line=None):
+        i, m = self.pair.op(line, model_line)
         idx = len(self.ops)
         self.ops.append((line, i, m))
         if line.startswith("storage"):
@@ -115,6 +115,9 @@ class Trace:
             if i.startswith("X") or m.startswith("X"):
                 rec = dict(index=idx, kind="protocol", ep=ep, fields=["protocol"])
                 self.diverged = True
+            elif line.startswith("abi"):
+                if i != m:
+                    rec = dict(index=idx, kind="call", ep="abi", fields=["abi"], impl_msg="", model_msg="")
             elif line.startswith("dump"):
                 f = canon.diff_D(i, m)
                 if f:
